@@ -217,7 +217,11 @@ func runC06(c *Ctx) {
 	specs = append(specs,
 		RunSpec{Src: "len(I+98..I) + len(I..I+6) + len(I..I+6)", Env: "struct", Opt: true, EnvSeed: 7, I: intp(1), J: intp(2)},
 		RunSpec{Src: "len(J..I) + len([I, J, 1]) + len(map(I..J, {[#]}))", Env: "struct", Opt: false, EnvSeed: 7, I: intp(1), J: intp(5)},
-		RunSpec{Src: "[map(1..3, {# .. I}), {a: J..I}, filter(I..J, {# > 2})]", Env: "none", EnvSeed: 8, I: intp(2), J: intp(6)})
+		RunSpec{Src: "[map(1..3, {# .. I}), {a: J..I}, filter(I..J, {# > 2})]", Env: "none", EnvSeed: 8, I: intp(2), J: intp(6)},
+		// empty ranges whose bounds are more than MaxInt apart: max - min + 1 wraps around to a huge positive size
+		RunSpec{Src: "len((I + 9223372036854775800)..(J - 9223372036854775800)) + len(I..J)", Env: "struct", Opt: false, EnvSeed: 7, I: intp(1), J: intp(3)},
+		RunSpec{Src: "len((I + 9223372036854775800)..(J - 9223372036854775800)) + len(I..J)", Env: "none", EnvSeed: 7, I: intp(1), J: intp(3)},
+		RunSpec{Src: "[(I + 9223360872354775800)..(J - 9223372036854775800), I..J]", Env: "struct", Opt: true, EnvSeed: 7, I: intp(2), J: intp(4)})
 	for i := 0; i < n; i++ {
 		m := modes[c.Rng.Intn(len(modes))]
 		specs = append(specs, RunSpec{Src: g.top(1 + c.Rng.Intn(3)), Env: m.Env, Opt: m.Optimize, EnvSeed: int64(c.Rng.Intn(50)),
